@@ -109,8 +109,16 @@ def r2_numerals(prog: Program, rep: Report):
     r = prog.func("roman_2_int", GENERIC_MOD)
     rep.fn(w, r)
     table = None
-    for n in ast.walk(w.node):
-        if isinstance(n, ast.List) and len(n.elts) >= 5 and all(isinstance(e, ast.Tuple) and len(e.elts) == 2 for e in n.elts):
+    # the literal may live in the function or in a module-level constant the function names
+    roots = [w.node]
+    used = {n.id for n in ast.walk(w.node) if isinstance(n, ast.Name)}
+    for st in w.mod.tree.body:
+        if isinstance(st, ast.Assign) and len(st.targets) == 1 and isinstance(st.targets[0], ast.Name) and st.targets[0].id in used:
+            roots.append(st.value)
+        elif isinstance(st, ast.AnnAssign) and isinstance(st.target, ast.Name) and st.target.id in used and st.value is not None:
+            roots.append(st.value)
+    for n in (x for root in roots for x in ast.walk(root)):
+        if isinstance(n, (ast.List, ast.Tuple)) and len(n.elts) >= 5 and all(isinstance(e, ast.Tuple) and len(e.elts) == 2 for e in n.elts):
             vals = [(const_value(e.elts[0]), const_value(e.elts[1])) for e in n.elts]
             if all(isinstance(a, int) and isinstance(b, str) for a, b in vals):
                 table = vals
@@ -145,14 +153,29 @@ def r2_numerals(prog: Program, rep: Report):
               f"the greedy table is not the strictly descending standard table: {table}",
               scenario="a missing subtractive entry (e.g. 900 'CM') makes int_2_roman(900) = 'DCCCC', which is not canonical")
     # reader's subtractive rule: -x when a smaller value precedes a larger one
-    rule_ok = False
+    rule_ok = None
     for n in ast.walk(r.node):
         if isinstance(n, ast.IfExp) and isinstance(n.body, ast.UnaryOp) and isinstance(n.body.op, ast.USub):
             t = src(n.test)
             rule_ok = "<" in t and "+ 1]" in t and src(n.body.operand) == src(n.orelse)
-    rep.check("C19.R2", r, "subtractive-rule", rule_ok, "a symbol is subtracted iff it is smaller than its right neighbour",
-              "the reader's subtractive rule is not `-x if x < next else x`",
-              scenario="roman_2_int('IV') == 6")
+            # the right neighbour may come from zip(values, values[1:] + [<filler>]) instead of an index
+            if not rule_ok and isinstance(n.test, ast.Compare) and len(n.test.ops) == 1 and isinstance(n.test.ops[0], ast.Lt) \
+                    and src(n.test.left) == src(n.body.operand) == src(n.orelse) and isinstance(n.test.comparators[0], ast.Name):
+                nxt = n.test.comparators[0].id
+                for z in ast.walk(r.node):
+                    if isinstance(z, ast.comprehension) and isinstance(z.target, ast.Tuple) and len(z.target.elts) == 2 \
+                            and src(z.target.elts[0]) == src(n.orelse) and src(z.target.elts[1]) == nxt \
+                            and isinstance(z.iter, ast.Call) and src(z.iter.func) == "zip" and len(z.iter.args) == 2:
+                        a0, a1 = z.iter.args
+                        if isinstance(a1, ast.BinOp) and isinstance(a1.op, ast.Add) and src(a1.left) == f"{src(a0)}[1:]" \
+                                and isinstance(a1.right, ast.List) and len(a1.right.elts) == 1 and const_value(a1.right.elts[0]) == 0:
+                            rule_ok = True
+    if rule_ok is None:
+        rep.unrec("C19.R2", r, "subtractive-rule", "no conditional negation of a symbol's value found in the reader")
+    else:
+        rep.check("C19.R2", r, "subtractive-rule", rule_ok, "a symbol is subtracted iff it is smaller than its right neighbour",
+                  "the reader's subtractive rule is not `-x if x < next else x`",
+                  scenario="roman_2_int('IV') == 6")
     # writer: greedy divmod over the table, concatenated in table order
     dm = [n for n in ast.walk(w.node) if isinstance(n, ast.Call) and src(n.func) == "divmod"]
     join = [n for n in ast.walk(w.node) if isinstance(n, ast.Call) and isinstance(n.func, ast.Attribute) and n.func.attr == "join"]
